@@ -42,6 +42,7 @@ type caseT struct {
 	Table    [][]int  `json:"table"`
 	By       bool     `json:"by"`
 	Sub      bool     `json:"sub"`
+	Variant  string   `json:"variant"`
 	Slots    []slotT  `json:"slots"`
 	Script   []int    `json:"script"`
 	Comment  []int    `json:"comment"`
@@ -203,6 +204,9 @@ func (r *runner) describe(c *caseT) string {
 	}
 	if c.Sub {
 		d += "; every entry under sub/, script runs after `cd sub`"
+	}
+	if c.Variant == "stop" {
+		d += "; the script ends with a stop line"
 	}
 	return d
 }
